@@ -17,7 +17,9 @@ import (
 	"gosym/gosym"
 )
 
-const (
+// verifDir / srcDir: where harness sources, known findings and assumptions are read from. VERIF_DIR selects a
+// snapshot of /verif (background runs from a committed copy).
+var (
 	verifDir = "/verif"
 	srcDir   = "/verif/harness/src"
 )
@@ -33,6 +35,11 @@ var (
 )
 
 func setupRepo() {
+	if d := os.Getenv("VERIF_DIR"); d != "" {
+		verifDir = d
+		srcDir = filepath.Join(d, "harness", "src")
+		outDir = d
+	}
 	if o := os.Getenv("VERIF_OUT"); o != "" {
 		outDir = o
 	}
@@ -290,6 +297,20 @@ type checkResult struct {
 	spec   *harnessSpec
 	rep    *gosym.Report
 	params map[string]int
+	stage  string // "" (the bound that is claimed: must be exhausted) or "deepening" (thorough tier: larger bound, may stop at its deadline)
+}
+
+// deeper reports whether the harness has thorough-tier values that differ from its quick-tier ones.
+func (h *harnessSpec) deeper() bool {
+	for k, v := range h.KV {
+		if k == "timeout" || k == "runs" || k == "steps" {
+			continue
+		}
+		if p := strings.Split(v, "/"); len(p) > 1 && p[0] != p[1] {
+			return true
+		}
+	}
+	return false
 }
 
 func cmdCheck(args []string) int {
@@ -346,31 +367,46 @@ func cmdCheck(args []string) int {
 	}
 	var results []*checkResult
 	for _, h := range specs {
-		params := h.params(tier)
-		opts := gosym.Options{
-			Params:       params,
-			MaxSteps:     int64(h.tiered("steps", tier, 3_000_000)),
-			MaxRuns:      h.tiered("runs", tier, 300_000),
-			Preempt:      h.tiered("preempt", tier, 2),
-			Workers:      workers,
-			SolverMs:     h.tiered("solverms", tier, 10000),
-			PortfolioSec: h.tiered("portfolio", tier, 60),
-			LoopCap:      h.tiered("loopcap", tier, 0),
-			MaxVals:      h.tiered("maxvals", tier, 0),
-			Verbose:      flags["v"] != "",
+		// thorough tier = the quick-tier bound (which must be exhausted and is the bound the check claims), followed
+		// by the larger thorough-tier bound, which is explored until it is exhausted or its deadline is reached
+		stages := []string{tier}
+		if tier == "thorough" && h.deeper() && h.Tier == "" {
+			stages = []string{"quick", "thorough"}
 		}
-		if ts := h.tiered("timeout", tier, 0); ts > 0 {
-			opts.Deadline = time.Now().Add(time.Duration(ts) * time.Second)
-		}
-		rep := gosym.Explore(prog, h.Import+"."+h.Func, opts)
-		fmt.Fprintf(os.Stderr, "[%s] %s: runs=%d done=%d infeasible=%d viol=%d unsupported=%d bounds=%d queries=%d solver=%.1fs wall=%.1fs %s\n",
-			prop, h.Func, rep.Runs, rep.Done, rep.Infeasible, len(rep.Violations), len(rep.Unsupported), len(rep.Bounds),
-			rep.SolverStats.Queries, rep.SolverStats.Time.Seconds(), rep.Wall.Seconds(), rep.Incomplete)
-		results = append(results, &checkResult{h, rep, params})
-		if h.KV["reversemaps"] != "" && tier == "thorough" {
-			opts.ReverseMaps = true
-			rep2 := gosym.Explore(prog, h.Import+"."+h.Func, opts)
-			results = append(results, &checkResult{h, rep2, params})
+		for si, stage := range stages {
+			params := h.params(stage)
+			opts := gosym.Options{
+				Params:       params,
+				MaxSteps:     int64(h.tiered("steps", stage, 3_000_000)),
+				MaxRuns:      h.tiered("runs", stage, 300_000),
+				Preempt:      h.tiered("preempt", stage, 2),
+				Workers:      workers,
+				SolverMs:     h.tiered("solverms", stage, 10000),
+				PortfolioSec: h.tiered("portfolio", stage, 60),
+				LoopCap:      h.tiered("loopcap", stage, 0),
+				MaxVals:      h.tiered("maxvals", stage, 0),
+				Verbose:      flags["v"] != "",
+			}
+			if ts := h.tiered("timeout", stage, 0); ts > 0 {
+				opts.Deadline = time.Now().Add(time.Duration(ts) * time.Second)
+			}
+			rep := gosym.Explore(prog, h.Import+"."+h.Func, opts)
+			fmt.Fprintf(os.Stderr, "[%s] %s: runs=%d done=%d infeasible=%d viol=%d unsupported=%d bounds=%d queries=%d solver=%.1fs wall=%.1fs %s\n",
+				prop, h.Func, rep.Runs, rep.Done, rep.Infeasible, len(rep.Violations), len(rep.Unsupported), len(rep.Bounds),
+				rep.SolverStats.Queries, rep.SolverStats.Time.Seconds(), rep.Wall.Seconds(), rep.Incomplete)
+			cr := &checkResult{spec: h, rep: rep, params: params}
+			if si > 0 {
+				cr.stage = "deepening"
+			}
+			results = append(results, cr)
+			if h.KV["reversemaps"] != "" && stage == "thorough" {
+				opts.ReverseMaps = true
+				rep2 := gosym.Explore(prog, h.Import+"."+h.Func, opts)
+				results = append(results, &checkResult{spec: h, rep: rep2, params: params, stage: cr.stage})
+			}
+			if len(rep.Violations) > 0 {
+				break
+			}
 		}
 	}
 	return conclude(prop, tier, seed, prog, results, start)
@@ -391,7 +427,7 @@ func conclude(prop, tier string, seed int, prog *gosym.Program, results []*check
 	known := loadKnown()
 	exit := 0
 	inconclusive := []string{}
-	var violLines, knownLines []string
+	var violLines, knownLines, notes []string
 	totalViol := 0
 	states, transitions := 0, int64(0)
 	funcs := map[string]bool{}
@@ -447,7 +483,19 @@ func conclude(prop, tier string, seed int, prog *gosym.Program, results []*check
 			inconclusive = append(inconclusive, h.Func+": INTERNAL "+e)
 		}
 		if rep.Incomplete != "" {
-			inconclusive = append(inconclusive, h.Func+": INCOMPLETE "+rep.Incomplete)
+			if r.stage == "deepening" {
+				// the claimed bound was exhausted by the preceding stage; this larger bound was explored as far as
+				// its budget went. Reported, not claimed.
+				hinfo["bound_not_exhausted"] = rep.Incomplete
+				notes = append(notes, fmt.Sprintf("NOTE property=%s harness=%s larger bound explored in part only (%s); the bound claimed is the one of the preceding stage", prop, h.Func, rep.Incomplete))
+			} else {
+				inconclusive = append(inconclusive, h.Func+": INCOMPLETE "+rep.Incomplete)
+			}
+		}
+		if r.stage != "" {
+			hinfo["stage"] = r.stage
+		} else {
+			hinfo["stage"] = "claimed-bound"
 		}
 		if rep.Done == 0 && len(rep.Violations) == 0 {
 			inconclusive = append(inconclusive, h.Func+": VACUOUS no run reached the end of the harness")
@@ -483,6 +531,9 @@ func conclude(prop, tier string, seed int, prog *gosym.Program, results []*check
 		}
 		hinfo["violations"] = len(rep.Violations)
 		perHarness = append(perHarness, hinfo)
+	}
+	for _, l := range notes {
+		fmt.Println(l)
 	}
 	for _, l := range knownLines {
 		fmt.Println(l)
